@@ -280,7 +280,7 @@ def make_key(c, rng, s, hw, wkey, bases):
     return k
 
 
-def make_rsa_priv(c, rng, s):
+def make_rsa_priv(c, rng, s, hw=None):
     p = c.p
     kk = RSAKEYS[rng.choice([0, 1])]
     sens, extr = rng.random() < 0.5, rng.random() < 0.5
@@ -291,7 +291,17 @@ def make_rsa_priv(c, rng, s):
     if r.get('rv') != '0x0':
         return None
     secrets = {a: bytes.fromhex(be(int(kk[n], 16))) for a, n in comp.items()}
-    return Key(r['h'], None, sens, extr, False, UNAVAIL, False, False, cls=3, ktype=0, origin='create(RSA private)', secrets=secrets)
+    k0 = Key(r['h'], None, sens, extr, False, UNAVAIL, False, False, cls=3, ktype=0, origin='create(RSA private)', secrets=secrets)
+    if hw and extr and rng.random() < 0.5:
+        # the same key once more, UNWRAPPED from what C_WrapKey made of it: never local, never "always sensitive" / "never extractable"
+        mech = rng.choice(['0x210a', '0x1085:x:%s' % ('00' * 16)])
+        w = p.op('wrap %s %s %s %s 2600' % (s, mech, hw, r['h']))
+        if w.get('rv') == '0x0' and w.get('out'):
+            s2, e2 = rng.random() < 0.5, rng.random() < 0.5
+            u = p.op('unwrap %s %s %s %s 0=u:3 0x100=u:0 1=b:0 2=b:0 0x108=b:1 0x105=b:1 0x%x=b:%d 0x%x=b:%d' % (s, mech, hw, w['out'], A['SENSITIVE'], s2, A['EXTRACTABLE'], e2))
+            if u.get('rv') == '0x0' and u.get('h'):
+                return Key(u['h'], None, s2, e2, False, UNAVAIL, False, False, cls=3, ktype=0, origin='unwrap(RSA private)', secrets=secrets)
+    return k0
 
 
 def seq_attr(lib, p11drv, seed, idx):
@@ -331,7 +341,7 @@ def seq_attr(lib, p11drv, seed, idx):
             if c.findings:
                 break
             if rng.random() < 0.15:
-                k = make_rsa_priv(c, rng, s)
+                k = make_rsa_priv(c, rng, s, hw)
             else:
                 k = make_key(c, rng, s, hw, wkey, bases)
             if k is None:
